@@ -149,7 +149,7 @@ func propC17(r *kernel.Run) {
 	}
 	registered := func(n string) bool { return subs[n] != nil }
 
-	ncl := tp.Range(3, 9)
+	ncl := tp.Range(3, r.Deep(9, 24))
 	var hist []string
 	for ci := 0; ci < ncl; ci++ {
 		kind := Pick2(tp, "authenticated", "authenticated", "authenticated", "base-tls", "base-tls", "base-tls", "fetch-only", "garbage")
